@@ -16,7 +16,7 @@ TRUSTED = [
     "bash -O lastpipe standing in for ksh",
     "shim stat: BSD `stat -f %Sm -t fmt file` emulated with date -r",
     "shim find: GNU find; a failing -delete on a non-empty directory is not an error (as with BSD find)",
-    "shim chflags (no-op), logname (prints root), sysctl (fails), sendmail (captures recipient and body)",
+    "shim chflags (no-op; with VERIF_UCHG the immutable flag is emulated by a side file honoured by touch and rm shims), logname (prints root), sysctl (fails), sendmail (captures recipient and body)",
     "wrappers for the ksh entry scripts (robsd-clean etc.) that re-run them under bash",
 ]
 
@@ -40,7 +40,41 @@ for a in "$@"; do
 done
 exec /usr/bin/find "$@"
 ''',
-    "chflags": "#!/bin/sh\nexit 0\n",
+    # chflags: a no-op, unless VERIF_UCHG is set: then the user-immutable flag is emulated with a hidden
+    # side file FILE.verif-uchg which the touch and rm shims below honour (robsd-kill, lock_alive, lock_release)
+    "chflags": r'''#!/bin/sh
+[ -n "${VERIF_UCHG:-}" ] || exit 0
+flag="$1"; shift
+for f; do
+    case "$flag" in
+    uchg)   [ -e "$f" ] && : > "$f.verif-uchg";;
+    nouchg) /bin/rm -f "$f.verif-uchg";;
+    esac
+done
+exit 0
+''',
+    "touch": r'''#!/bin/sh
+if [ -n "${VERIF_UCHG:-}" ]; then
+    for f; do
+        case "$f" in
+        -*) ;;
+        *)  if [ -e "$f.verif-uchg" ]; then echo "touch: $f: Operation not permitted" >&2; exit 1; fi;;
+        esac
+    done
+fi
+exec /usr/bin/touch "$@"
+''',
+    "rm": r'''#!/bin/sh
+if [ -n "${VERIF_UCHG:-}" ]; then
+    for f; do
+        case "$f" in
+        -*) ;;
+        *)  if [ -e "$f.verif-uchg" ]; then echo "rm: $f: Operation not permitted" >&2; exit 1; fi;;
+        esac
+    done
+fi
+exec /bin/rm "$@"
+''',
     "logname": "#!/bin/sh\necho root\n",
     "sysctl": "#!/bin/sh\nexit 1\n",
     "sendmail": r'''#!/bin/bash
